@@ -16,6 +16,15 @@ Sub-checks
             (model op c09.coded = the code after the repairs fixes/fullrank-guard-column-rank.diff and
             fixes/linear-estimator-unequal-outcome-counts.diff) must agree branch by branch, is_fullrank_matA() must
             agree with the model's guard (exact rank == number of columns), and the property predicates are evaluated.
+  history   hidden state: ONE LinearEstimator object (two per history) serves an interleaved list of jobs over a pool of
+            DIFFERENT tomographies - same class / parametrisation / shape with different testers (depolarised, read-out
+            noise, permuted schedules, synthetic tables of one shape), other shapes, other classes, both parametrisations,
+            rank-deficient members that must raise in between - returning to earlier members; single and sequence calls.
+            Every result is compared with the extracted model's result for THAT job alone (theorem C09_history_is_map:
+            the model's history is the map of the per-job results); a disagreeing result is classified with a fresh
+            estimator / a freshly built tomography (estimator-object state, tomography-object state, process state).
+            After the history: every earlier result object, every tomography's matA / vecB and every input array must
+            be unchanged.
   large     (thorough) 2-qubit QPT: exact inverse is out of budget, the normal equations and exact recovery are
             evaluated exactly on the implementation's output.
 """
@@ -838,6 +847,188 @@ def sub_synthetic(ctx):
     ctx.run_cases("synthetic", chk_synthetic, cases)
 
 
+# ------------------------------------------------------------------------------------------ sub-check: history
+SIG_HIST_EST = "estimate-depends-on-estimator-history"      # the re-used estimator object disagrees, a fresh estimator agrees
+SIG_HIST_QT = "estimate-depends-on-tomography-history"      # fresh estimator on the used tomography disagrees, on a rebuilt one agrees
+SIG_HIST_PROC = "estimate-wrong-even-with-fresh-objects"      # fresh estimator on a rebuilt tomography disagrees too: module / class level state, or a plain defect
+
+
+def build_member(spec):
+    """pool member -> (qt, c or None)"""
+    if spec["type"] == "real":
+        return build_tomo(spec["case"])
+    blocks = [[[fr(t) for t in r] for r in blk] for blk in spec["A"]]
+    bvals = [[fr(t) for t in blk] for blk in spec["b"]]
+    return synthetic_tomo(blocks, bvals), None
+
+
+def _job_estimates(qt, est, job_seq, mode):
+    """run one job on the given estimator object: list of estimates (or exception)"""
+    try:
+        with warnings.catch_warnings():
+            warnings.simplefilter("ignore")
+            if mode == "single":
+                res = [est.calc_estimate(qt, ds) for ds in job_seq]
+                return ("ok", res, [np.array(r.estimated_var, dtype=float) for r in res])
+            r = est.calc_estimate_sequence(qt, job_seq)
+            return ("ok", [r], [np.array(v, dtype=float) for v in r.estimated_var_sequence])
+    except Exception as e:      # noqa
+        return ("raise", e, None)
+
+
+def chk_history(ctx, case):
+    from quara.protocol.qtomography.standard.linear_estimator import LinearEstimator
+    sub = "history"
+    rng = random.Random(case["seed"])
+    pool = []
+    for spec in case["pool"]:
+        qt, c = build_member(spec)
+        A = np.array(qt.calc_matA(), dtype=float); b = np.array(qt.calc_vecB(), dtype=float)
+        ms = model_solve(ctx, A, b, [])
+        if ms["status"] == "err":
+            ctx.violation(sub, SITE_MODEL, "certificate-rejected", "model could not certify inverse or kernel (code %s)" % ms["code"], case)
+            return
+        skip = ms["status"] == "inv" and ms["kappa"] > KAPPA_BAND
+        pool.append({"spec": spec, "qt": qt, "A": A, "b": b, "A0": A.copy(), "b0": b.copy(), "sizes": block_sizes(qt), "ms": ms, "skip": skip,
+                     "shape_key": (type(qt).__name__, bool(qt.on_para_eq_constraint), qt.num_schedules, qt.num_variables, A.shape)})
+    usable = [i for i, pm in enumerate(pool) if not pm["skip"]]
+    if len(usable) < 2:
+        ctx.count(sub, key=("hist", case["id"], "skip"), nontrivial=False, label="history:pool-ill-conditioned-skipped")
+        return
+    # ---- the jobs: every usable member at least twice, interleaved, random estimator object, single / sequence calls
+    order = usable * 2 + [rng.choice(usable) for _ in range(case["extra_jobs"])]
+    rng.shuffle(order)
+    n_est = int(case.get("n_est", 2))
+    jobs = []
+    for t in order:
+        pm = pool[t]
+        m_ = pm["A"].shape[0]
+        k = rng.choice([1, 1, 2, 3])
+        seq = []
+        for _ in range(k):
+            vec = [float(Fraction(rng.randint(-24, 40), 16)) for _ in range(m_)]
+            seq.append([(rng.choice([1, 10, 1000]), d) for d in split_blocks(vec, pm["sizes"])])
+        jobs.append({"t": t, "est": 0 if rng.random() < 0.7 else rng.randrange(n_est), "mode": rng.choice(["single", "seq"]), "seq": seq,
+                     "seq0": [[(cnt, d.copy()) for cnt, d in ds] for ds in seq]})
+    # ---- the history: the estimator objects are created ONCE
+    ests = [LinearEstimator() for _ in range(n_est)]
+    seen = {e: [] for e in range(n_est)}          # per estimator: (shape_key, member index) already served
+    for ji, job in enumerate(jobs):
+        pm = pool[job["t"]]
+        job["out"] = _job_estimates(pm["qt"], ests[job["est"]], job["seq"], job["mode"])
+        job["snap"] = None if job["out"][0] != "ok" else [x.copy() for x in job["out"][2]]
+        job["collision"] = any(k == pm["shape_key"] and t != job["t"] for k, t in seen[job["est"]])
+        seen[job["est"]].append((pm["shape_key"], job["t"]))
+    # ---- every result against the model's result for that job ALONE
+    for ji, job in enumerate(jobs):
+        pm = pool[job["t"]]
+        ms, A, b = pm["ms"], pm["A0"], pm["b0"]
+        st, res, xs = job["out"]
+        lab = "history:%s:%s" % ("real" if pm["spec"]["type"] == "real" else "synthetic", "rank-deficient" if ms["status"] == "ker" else ("same-shape-other-testers-seen-before" if job["collision"] else "first-of-its-shape"))
+        ctx.count(sub, key=("hist", case["id"], ji), nontrivial=bool(job["collision"] or ms["status"] == "ker"), label=lab + ":" + job["mode"])
+        jc = dict(case, focus_job=ji)
+        if ms["status"] == "ker":
+            check_rank_deficient(ctx, sub, jc, A, ms, "ok" if st == "ok" else "raise", res, bool(pm["qt"].is_fullrank_matA()))
+            continue
+        cst, cval = model_coded(ctx, A, b, job["seq0"])
+        if cst != "ok":
+            ctx.violation(sub, SITE_MODEL, "model-branch", "model-as-coded raises code %s on a well-formed job" % cval, jc)
+            continue
+        tol = 1e-9 * ms["kappa"]
+        xm = [np.array([float(t) for t in x]) for x in cval]
+        def off(xlist):
+            if xlist is None or len(xlist) != len(xm):
+                return float("inf")         # raised, or wrong number of estimates
+            return max(maxabs(x, y) / (1.0 + float(np.abs(y).max())) for x, y in zip(xlist, xm))
+        d_shared = off(xs)
+        if d_shared <= tol:
+            continue
+        # classify: fresh estimator on the same tomography object / on a rebuilt tomography
+        d_fresh = off(_job_estimates(pm["qt"], LinearEstimator(), job["seq0"], job["mode"])[2])
+        d_rebuilt = off(_job_estimates(build_member(pm["spec"])[0], LinearEstimator(), job["seq0"], job["mode"])[2])
+        sig = SIG_HIST_EST if d_fresh <= tol else (SIG_HIST_QT if d_rebuilt <= tol else SIG_HIST_PROC)
+        prev = [t for k, t in seen[job["est"]][:sum(1 for j in jobs[:ji] if j["est"] == job["est"])]]
+        ctx.violation(sub, SITE_EST, sig,
+                      "job %d of a history (tomography member %d, %s %s, matA %dx%d, estimator object #%d previously used for members %s): %s (relative; tol %.3g; inf = raises); "
+                      "fresh estimator on the same tomography: %.3g; fresh estimator on a rebuilt tomography: %.3g"
+                      % (ji, job["t"], pm["shape_key"][0], "para" if pm["shape_key"][1] else "full", A.shape[0], A.shape[1], job["est"], prev[-6:],
+                         ("the re-used estimator raises %s: %s" % (type(res).__name__, str(res)[:100])) if st != "ok" else ("estimate differs from the exact least-squares solution of THIS job by %.3g" % d_shared),
+                         tol, d_fresh, d_rebuilt), jc)
+    # ---- nothing that was handed out or handed in has changed
+    for ji, job in enumerate(jobs):
+        if job["out"][0] == "ok":
+            st, res, xs = job["out"]
+            now = [np.array(r.estimated_var, dtype=float) for r in res] if job["mode"] == "single" else [np.array(v, dtype=float) for v in res[0].estimated_var_sequence]
+            if len(now) != len(job["snap"]) or any(not np.array_equal(a, b_) for a, b_ in zip(now, job["snap"])):
+                ctx.violation(sub, SITE_RES, "result-changed-by-later-call", "the result object returned by job %d reports different estimates after later jobs ran" % ji, dict(case, focus_job=ji))
+        for ds, ds0 in zip(job["seq"], job["seq0"]):
+            if any(c1 != c0 or not np.array_equal(d1, d0) for (c1, d1), (c0, d0) in zip(ds, ds0)):
+                ctx.violation(sub, SITE_EST, "mutates-argument", "the empirical distributions passed to job %d were modified" % ji, dict(case, focus_job=ji))
+    for t, pm in enumerate(pool):
+        if not (np.array_equal(np.array(pm["qt"].calc_matA(), dtype=float), pm["A0"]) and np.array_equal(np.array(pm["qt"].calc_vecB(), dtype=float), pm["b0"])):
+            ctx.violation(sub, "StandardQTomography.calc_matA", "tomography-changed-by-estimation", "matA / vecB of pool member %d differ after the history" % t, case)
+
+
+def _syn_member(rng, m_sizes, n, deficient=False):
+    total = sum(m_sizes)
+    rows = [[rng.randint(-3, 3) for _ in range(n)] for _ in range(total)]
+    if deficient and n >= 2:
+        j = rng.randrange(n); others = [t for t in range(n) if t != j]
+        co = [rng.randint(-2, 2) for _ in others]
+        for r in rows:
+            r[j] = sum(c * r[t] for c, t in zip(co, others))
+    bvec = [Fraction(rng.randint(-8, 8), 8) for _ in range(total)]
+    A_blocks, b_blocks, o = [], [], 0
+    for sz in m_sizes:
+        A_blocks.append([[str(t) for t in r] for r in rows[o:o + sz]]); b_blocks.append([fstr(t) for t in bvec[o:o + sz]]); o += sz
+    return {"type": "syn", "A": A_blocks, "b": b_blocks}
+
+
+def gen_history(rng, idx, quick):
+    """pool families chosen so that SEVERAL members share class, parametrisation, number of schedules, number of
+    variables and matA shape but differ in their testers (the situation in which state keyed by 'the setting' goes wrong)"""
+    def real(kind, sysname, para, tset, **kw):
+        return {"type": "real", "case": tomo_case(rng, kind, sysname, para, tset, n_truth=1, n_adv=0, n_var=0, n_samp=0, **kw)}
+    fam = ["qst-q1", "synthetic", "povmt-q1", "mixed", "qst-t1", "qpt-q1"][idx % 6]
+    para = bool(rng.getrandbits(1))
+    pool = []
+    if fam == "qst-q1":
+        pool = [real("qst", "q1", para, "complete"), real("qst", "q1", para, "complete-dep"), real("qst", "q1", para, "complete-flip"),
+                real("qst", "q1", para, "complete-dep", perm=True), real("qst", "q1", not para, "complete-dep"), real("qst", "q1", para, "over-dep"),
+                real("qst", "q1", para, "over", perm=True)]
+        inc = {"type": "real", "case": {"kind": "qst", "sys": "q1", "para": para, "seed": rng.randrange(10 ** 9), "tset": "incomplete", "povms": ["x", "y"], "prate": 0}}
+        pool.append(inc)
+    elif fam == "povmt-q1":
+        pool = [real("povmt", "q1", para, "complete", nout=2), real("povmt", "q1", para, "complete-dep", nout=2), real("povmt", "q1", para, "complete-dep", nout=2, perm=True),
+                real("povmt", "q1", not para, "complete-dep", nout=2), real("povmt", "q1", para, "over-dep", nout=2), real("qst", "q1", para, "complete-dep")]
+        pool.append({"type": "real", "case": {"kind": "povmt", "sys": "q1", "para": para, "seed": rng.randrange(10 ** 9), "tset": "incomplete", "states": ["x0", "y0", "z0"], "srate": 0, "nout": 2}})
+    elif fam == "qst-t1":
+        pool = [real("qst", "t1", para, "complete"), real("qst", "t1", para, "complete-flip"), real("qst", "t1", para, "complete-dep", perm=True), real("qst", "t1", para, "mixed"),
+                real("qst", "q1", para, "complete-dep")]
+    elif fam == "qpt-q1":
+        pool = [real("qpt", "q1", para, "complete"), real("qpt", "q1", para, "complete-dep"), real("qpt", "q1", para, "complete-flip"), real("qst", "q1", para, "complete-flip"),
+                real("povmt", "q1", para, "complete-dep", nout=2)]
+    elif fam == "synthetic":
+        n = rng.randint(2, 4); sizes = [rng.randint(1, 3) for _ in range(3)]
+        while sum(sizes) <= n:
+            sizes[rng.randrange(3)] += 1
+        pool = [_syn_member(rng, sizes, n) for _ in range(4)] + [_syn_member(rng, sizes, n, deficient=True)]
+        pool += [_syn_member(rng, list(reversed(sizes)), n), _syn_member(rng, [s + 1 for s in sizes], n), _syn_member(rng, [2] * (n + 1), max(1, n - 1))]
+    else:
+        pool = [real("qst", "q1", para, "complete-dep"), real("qst", "q1", para, "complete-flip"), real("povmt", "q1", para, "complete-dep", nout=2),
+                real("qmpt", "q1", para, "complete", nout=2), real("qmpt", "q1", para, "complete-dep", nout=2)]
+        pool += [_syn_member(rng, [2, 2, 2], 4), _syn_member(rng, [2, 2, 2], 4), _syn_member(rng, [2, 2, 2], 4, deficient=True)]
+    rng.shuffle(pool)
+    return {"id": idx, "family": fam, "pool": pool, "seed": rng.randrange(10 ** 9), "extra_jobs": 4 if quick else 10, "n_est": 2}
+
+
+def sub_history(ctx):
+    cases = [gen_history(ctx.rng, i, ctx.quick) for i in range(ctx.n(12, 72))]
+    ctx.sample("history", cases[0])
+    ctx.run_cases("history", chk_history, cases)
+
+
+
 # ------------------------------------------------------------------------------------------ sub-check: large (thorough)
 def chk_large(ctx, case):
     sub = "large"
@@ -893,8 +1084,8 @@ def sub_large(ctx):
     ctx.run_cases("large", chk_large, cases)
 
 
-SUBS = [("tomo", sub_tomo), ("rankdef", sub_rankdef), ("synthetic", sub_synthetic), ("large", sub_large)]
-FNS = {"synthetic": chk_synthetic, "tomo": chk_tomo, "rankdef": chk_rankdef, "large": chk_large}
+SUBS = [("tomo", sub_tomo), ("history", sub_history), ("rankdef", sub_rankdef), ("synthetic", sub_synthetic), ("large", sub_large)]
+FNS = {"synthetic": chk_synthetic, "tomo": chk_tomo, "rankdef": chk_rankdef, "large": chk_large, "history": chk_history}
 
 
 def run(ctx):
